@@ -12,8 +12,8 @@ pub fn run(ctx: &Ctx, walk: bool) -> i32 {
     // profile plan: (profile, family filter)
     let mut plan: Vec<(&str, Box<dyn Fn(&str) -> bool>)> = vec![("checked", Box::new(|_| true))];
     if thorough {
-        plan.push(("unopt", Box::new(|n: &str| n.starts_with("M2-field") || n.starts_with("M3") || n.starts_with("M7") || n.starts_with("M5") || n.starts_with("M6") || n.starts_with("M4"))));
-        plan.push(("plain", Box::new(|n: &str| n.starts_with("M2-field") || n.starts_with("M3") || n.starts_with("M7") || n.starts_with("M6"))));
+        plan.push(("unopt", Box::new(|n: &str| n.starts_with("M2-field") || n.starts_with("M2-structural") || n.starts_with("M3") || n.starts_with("M7") || n.starts_with("M5") || n.starts_with("M6") || n.starts_with("M4"))));
+        plan.push(("plain", Box::new(|n: &str| n.starts_with("M2-field") || n.starts_with("M2-structural") || n.starts_with("M3") || n.starts_with("M7") || n.starts_with("M6"))));
     } else if !walk {
         plan.push(("unopt", Box::new(|n: &str| n.starts_with("M3") || n.starts_with("M7") || n == "M2-field-b1" || n == "M2-field-b3")));
     }
@@ -26,7 +26,15 @@ pub fn run(ctx: &Ctx, walk: bool) -> i32 {
                 continue;
             }
             // the 400 KB base is walked (rendered) only in the thorough tier; the quick tier loads it (C04) and measures it (C12)
-            if walk && !thorough && fam.name.ends_with("-big") {
+            // walk-based check: the full field sweep of the 400 KB base is load-only business (C04, C12);
+            // its structural-field sweep is walked in the optimised profiles of the thorough tier
+            if walk && fam.name == "M2-field-big" {
+                continue;
+            }
+            if walk && (!thorough || *prof == "unopt") && fam.name.ends_with("-big") {
+                continue;
+            }
+            if !walk && fam.name == "M2-structural-big" {
                 continue;
             }
             let fname = if *prof == "checked" { fam.name.clone() } else { format!("{}@{}", fam.name, prof) };
